@@ -1,8 +1,11 @@
-import json, sys, subprocess
-pid = sys.argv[1]
-base=subprocess.run(['/venv/bin/python','/tmp/seed_prompt.py',pid],capture_output=True,text=True).stdout
-base=base.replace('/tmp/seed-%s'%pid, '/tmp/seed14-%s'%pid)
-used=[l for l in open('/tmp/used_ideas.txt') if l.startswith(pid+':')][0].strip()
-extra=("\n\nADDITIONAL REQUIREMENT for this round: earlier attempts already used these ideas — do NOT repeat them or close variants: %s. "
+"""usage: python seed_prompt_round.py <Cxx> <round-number>  - prints the sub-agent prompt"""
+import os, subprocess, sys
+HERE = os.path.dirname(os.path.abspath(__file__))
+pid, rnd = sys.argv[1], sys.argv[2]
+base = subprocess.run(['/venv/bin/python', os.path.join(HERE, 'seed_prompt_base.py'), pid],
+                      capture_output=True, text=True).stdout
+base = base.replace('/tmp/seed-%s' % pid, '/tmp/seed%s-%s' % (rnd, pid))
+used = [l for l in open(os.path.join(HERE, 'used_ideas.txt')) if l.startswith(pid + ':')][0].strip()
+extra = ("\n\nADDITIONAL REQUIREMENT for this round: earlier attempts already used these ideas — do NOT repeat them or close variants: %s. "
  "IMPORTANT: use `git apply -R seeded_out/patch.diff` / `git apply seeded_out/patch.diff` to switch between the changed and unchanged tree - never `git stash` (the stash is shared with other worktrees). Find a DIFFERENT mechanism, anywhere in the files the property is anchored in (or code they call): e.g. an error/exception path, a boundary value (zero, None, empty list, equal timestamps), a stale value carried across events or restarts, an ordering of two steps, unit/format handling, a condition that is true only after a specific sequence. It must still be subtle and realistic.") % used
-print(base+extra)
+print(base + extra + '\n\n' + open(os.path.join(HERE, 'reachability_note.txt')).read().split('\n\n\n')[-1])
